@@ -1,4 +1,4 @@
-import Secp.Proofs.WrapperTies
+import Secp.Proofs.WrapperTiesN
 import Secp.Proofs.ScalarLawful
 import Secp.Hand.Scalar
 /-!
